@@ -501,11 +501,39 @@ def write_audit():
     return names
 
 
+def recheck_oleans():
+    """thorough tier: the compiled library is replayed declaration by declaration by leanchecker, the
+    toolchain's independent re-checker (--fresh: the whole environment, core included); cached by the
+    hash of the compiled files. Returns (ok, seconds, message)"""
+    lib = os.path.join(LEAN, ".lake", "build", "lib")
+    h = hashlib.sha256()
+    for p in sorted(tree_files(lib, (".olean",))):
+        h.update(p.encode())
+        h.update(open(p, "rb").read())
+    key = os.path.join(CACHE, "leanchecker-" + h.hexdigest()[:16])
+    if os.path.exists(key):
+        return True, 0.0, "cached: these compiled files were re-checked before"
+    t0 = time.time()
+    r = sh(["lake", "env", "leanchecker", "--fresh", "Yomm2"], cwd=LEAN)
+    dt = time.time() - t0
+    if r.returncode == 0:
+        os.makedirs(CACHE, exist_ok=True)
+        open(key, "w").write("ok %.1fs\n" % dt)
+        return True, dt, "leanchecker --fresh Yomm2: every declaration replayed"
+    return False, dt, (r.stdout + r.stderr)[-2000:]
+
+
 def prepare(ck, need_harness=True):
     """steps (1) and (2) of every check. Returns "ok", "search" (proof obligations broke but the
     model still runs: look for a failing input) or "stop"."""
     write_audit()
     ck.lean = lean_build()
+    if ck.lean.ok and ck.tier == "thorough":
+        ok, dt, msg = recheck_oleans()
+        ck.leanchecker = {"ok": ok, "seconds": round(dt, 1), "detail": msg}
+        if not ok:
+            ck.lean.ok = False
+            ck.lean.errors.append("leanchecker rejected the compiled library: " + msg)
     mode = "ok"
     if not ck.lean.ok:
         ck.broken_proof = write_replay(ck.prop, "proof", {
